@@ -257,3 +257,11 @@ pub fn cut_path() {
     #[cfg(not(kani))]
     std::panic::panic_any(Rejected);
 }
+
+/// `&str` view of bytes the harness has constrained to be valid UTF-8 (ASCII bytes, or the output
+/// of `char::encode_utf8`). `core::str::from_utf8` is avoided in harness code: its word-at-a-time
+/// fast path depends on pointer alignment, which is nondeterministic under CBMC, so its loop is
+/// unrolled to the bound (4 433 iterations observed for a 1-byte array).
+pub fn str_of(b: &[u8]) -> &str {
+    unsafe { core::str::from_utf8_unchecked(b) }
+}
